@@ -113,6 +113,19 @@ class EnumConst:
         return '%s.%s' % (self.cls, self.name)
 
 
+def _known(p, t):
+    """truth of a test the path has already decided: the very same (side-effect free) expression was branched on before"""
+    if t is None or any(isinstance(n, (ast.Call, ast.Await, ast.Yield, ast.YieldFrom, ast.NamedExpr)) and not (isinstance(n, ast.Call) and isinstance(n.func, ast.Name) and n.func.id in ('isinstance', 'issubclass', 'callable', 'type', 'id')) for n in ast.walk(t.ast)):
+        return None
+    if 'mutated' in t.tags:
+        return None
+    txt = t.text
+    for ft, pol in reversed(p.facts):
+        if ft == txt:
+            return pol
+    return None
+
+
 class Event:
     __slots__ = ('kind', 'callee', 'attr', 'recv', 'args', 'kw', 'node', 'fn', 'facts', 'value', 'target', 'depth', 'result', 'in_loop', 'heap')
 
@@ -603,6 +616,8 @@ class Tracer:
         outs = []
         for q, t in self._expr(test, p, fi, depth):
             c = _truth(t)
+            if c is None:
+                c = _known(q, t)
             if c is True:
                 outs.extend(self._block(body, [q], fi, depth))
             elif c is False:
@@ -751,10 +766,23 @@ class Tracer:
                     from .srcmodel import FuncInfo
                     v.closure = (FuncInfo(g, fi.module), {})
             return [(p, v)]
+        if isinstance(e, ast.IfExp) and isinstance(e.test, ast.UnaryOp) and isinstance(e.test.op, ast.Not):
+            return self._expr(ast.copy_location(ast.IfExp(test=e.test.operand, body=e.orelse, orelse=e.body), e), p, fi, depth)
+        if isinstance(e, ast.IfExp) and isinstance(e.test, ast.BoolOp) and len(e.test.values) >= 2:
+            # (a and b) ? x : y  ==  a ? (b ? x : y) : y   - every path carries atomic facts
+            first, rest = e.test.values[0], e.test.values[1:]
+            rest_test = rest[0] if len(rest) == 1 else ast.BoolOp(op=e.test.op, values=rest)
+            if isinstance(e.test.op, ast.And):
+                inner = ast.copy_location(ast.IfExp(test=rest_test, body=e.body, orelse=e.orelse), e)
+                return self._expr(ast.copy_location(ast.IfExp(test=first, body=inner, orelse=e.orelse), e), p, fi, depth)
+            inner = ast.copy_location(ast.IfExp(test=rest_test, body=e.body, orelse=e.orelse), e)
+            return self._expr(ast.copy_location(ast.IfExp(test=first, body=e.body, orelse=inner), e), p, fi, depth)
         if isinstance(e, ast.IfExp):
             outs = []
             for q, t in self._expr(e.test, p, fi, depth):
                 c = _truth(t)
+                if c is None:
+                    c = _known(q, t)
                 if c is True:
                     outs.extend(self._expr(e.body, q, fi, depth))
                 elif c is False:
